@@ -61,14 +61,26 @@ func VerifC13_TwoStageEqualsOneShot() {
 		m, valid = gpbft.VerifBuildFromBase(c) // valid base shapes x defect
 	}
 	pmm := &PartialMessageManager{}
+	// the one-shot side validates its own copy (completion rewrites the value of a
+	// justification in place, and a stripped message may share the justification object)
 	orig := *m
+	if m.Justification != nil {
+		j := *m.Justification
+		orig.Justification = &j
+	}
 	pm, err := pmm.ToPartialGMessage(m)
 	sym.Assert(err == nil, "strip succeeds")
 	sym.Assert(pm.Vote.Value.IsZero(), "stripped message carries no chain")
 
 	tiny, separate := false, false
 	if sym.Tier() == 1 {
-		tiny, separate = sym.Bool("tiny-cache"), sym.Bool("separate-validators")
+		// (one extra dimension: a tiny shared cache, or separate validators)
+		switch sym.Choice("cache-variant", 3) {
+		case 1:
+			tiny = true
+		case 2:
+			separate = true
+		}
 	}
 	v1 := gpbft.VerifNewValidator(c, tiny)
 	v2 := v1
